@@ -2739,10 +2739,15 @@ class Partitions(Expr):
     def _simplify_down(self):
         from dask_expr import SetIndexBlockwise
 
-        if isinstance(self.frame, Blockwise) and not isinstance(
-            # MapOverlap needs the neighbouring partitions until it is lowered
-            self.frame,
-            (BlockwiseIO, Fused, SetIndexBlockwise, MapOverlap),
+        if (
+            isinstance(self.frame, Blockwise)
+            and not isinstance(
+                # MapOverlap needs the neighbouring partitions until it is lowered;
+                # Sample and FillnaCheck build their tasks from the partition number
+                self.frame,
+                (BlockwiseIO, Fused, SetIndexBlockwise, MapOverlap, Sample, FillnaCheck),
+            )
+            and not getattr(self.frame, "_has_partition_info", False)
         ):
             operands = [
                 (
